@@ -157,6 +157,11 @@ func c06Check(p c06Prop, nl ap.NaturalLanguageValues, ci int) (ds []keyed) {
 	if err != nil {
 		return []keyed{{key(stage + "-error"), fmt.Sprintf("%s error %v (encoded %s)", stage, err, clipBytes(b, 300))}}
 	}
+	// what came back belongs to the caller: decoding other documents afterwards (of the same size, through the same entry points) must
+	// not reach into it.  A decoder that hands out text still lying in a buffer it reuses shows here.
+	if pi := evSafe(func() { c06Clobber(len(b)) }); pi != nil {
+		return []keyed{{key("panic@" + pi.Frame), "decoding an unrelated document: " + pi.Value}}
+	}
 	got, ok := c06Extract(p, back)
 	if !ok {
 		return []keyed{{key("lost-value"), fmt.Sprintf("decoded %T instead of %s (encoded %s)", back, p.GoType, clipBytes(b, 300))}}
@@ -183,6 +188,23 @@ func c06Check(p c06Prop, nl ap.NaturalLanguageValues, ci int) (ds []keyed) {
 		ds = append(ds, keyed{key(effect), fmt.Sprintf("%s.%s through %s: stored %v, came back %v (encoded %s)", p.GoType, p.Field, cd.name, w, g, clipBytes(b, 300))})
 	}
 	return ds
+}
+
+// c06Clobber decodes unrelated documents of about n bytes through the JSON and gob entry points.
+func c06Clobber(n int) {
+	pad := strings.Repeat("#~", n/2+8)
+	doc := []byte(`{"type":"Note","id":"https://example.com/unrelated","nameMap":{"de":"` + pad + `","es":"` + pad + `"},"contentMap":{"it":"` + pad + `","pt":"` + pad + `"}}`)
+	for i := 0; i < 3; i++ {
+		_, _ = ap.UnmarshalJSON(doc)
+	}
+	_ = new(ap.Object).UnmarshalJSON(doc)
+	_ = new(ap.Actor).UnmarshalJSON(doc)
+	var nl ap.NaturalLanguageValues
+	_ = nl.UnmarshalJSON([]byte(`{"de":"` + pad + `","es":"` + pad + `"}`))
+	if gb, err := ap.GobEncode(&ap.Object{ID: "https://example.com/unrelated", Type: ap.NoteType, Name: ap.NaturalLanguageValues{{Ref: "de", Value: ap.Content(pad)}, {Ref: "es", Value: ap.Content(pad)}}}); err == nil {
+		_, _ = ap.GobDecode(gb)
+		_ = new(ap.Object).GobDecode(gb)
+	}
 }
 
 var c06ValuePairs = []string{"json-methods", "encoding/json", "gob-methods"}
